@@ -51,3 +51,151 @@ PROPS["C06"] = dict(
     assumptions=["input shorter than 2^31 bytes (usize -> i32 cast in try_into_range)",
                  "the model of parse_args/parse_bounds_list/cut_bytes corresponds to the code (checked by this run)"],
 )
+
+
+# ------------------------------------------------------------------ relational oracles
+
+def groups(cases, impl):
+    g = {}
+    for c in cases:
+        if c.tags.get("grp") is not None and c.id in impl:
+            g.setdefault(c.tags["grp"], {})[c.tags["role"]] = (c, impl[c.id])
+    return g
+
+
+def fail_payload(what, members):
+    return (what, {"why": what, "_cases": [c for (c, r) in members.values()],
+                   "runs": [dict(c.to_json(), role=role, observed={"class": r[0], "stdout_hex": r[1].hex()},
+                                 reproduce=c.shell()) for role, (c, r) in members.items()]})
+
+
+def oracle_same(role_a, role_b, what):
+    def orc(cases, impl, ctx):
+        n, bad = 0, []
+        for gid, m in groups(cases, impl).items():
+            if role_a in m and role_b in m:
+                n += 1
+                a, b = m[role_a][1], m[role_b][1]
+                if a[0] != b[0] or (a[0] == "0" and a[1] != b[1]):
+                    bad.append(fail_payload(what, m))
+        return n, bad
+    return orc
+
+
+def oracle_c10(cases, impl, ctx):
+    n, bad = 0, []
+    model = ctx["model"]
+    for gid, m in groups(cases, impl).items():
+        if not all(k in m for k in ("A", "B", "AB")):
+            continue
+        n += 1
+        (ca, a), (cb, b), (cab, ab) = m["A"], m["B"], m["AB"]
+        if a[0] == "0" and b[0] == "0":
+            ok = ab[0] == "0" and ab[1] == a[1] + b[1]
+        elif a[0] == "0":
+            ok = ab[0] == b[0] and ab[1].startswith(a[1])
+        else:
+            ma = model.get(ca.id)
+            pre = ma[1] if (ma and ma[0] == "1") else b""
+            ok = ab[0] == a[0] and ab[1].startswith(pre)
+        if not ok:
+            bad.append(fail_payload("output for A followed by B is not the output for A followed by the output for B", m))
+    return n, bad
+
+
+def oracle_c15(cases, impl, ctx):
+    n, bad = 0, []
+    for gid, m in groups(cases, impl).items():
+        if "complement" not in m:
+            continue
+        c, r = m["complement"]
+        n += 1
+        if c.tags.get("empty"):
+            if r[0] != "1":
+                bad.append(fail_payload("bounds leave nothing out but the run did not fail", m))
+        elif "equivalent" in m:
+            e = m["equivalent"][1]
+            if r[0] != e[0] or (r[0] == "0" and r[1] != e[1]):
+                bad.append(fail_payload("-m output differs from the equivalent explicit request", m))
+    return n, bad
+
+
+PROPS["C09"] = dict(
+    gen=lambda rng, n, tier: F.c09(rng, n),
+    budget=(3000, 30000),
+    absolute=False,
+    in_domain=always,
+    nontrivial=lambda c, m: c.tags.get("role") == "mirrored" and m[0] == "0",
+    oracle=oracle_same("orig", "mirrored", "rewriting -k as n+1-k changed the output"),
+    rule="pairs of invocations (modes -f/-c/-b/-l, with -j/-r/--json/-m/--no-join/-z/fallbacks) on inputs whose "
+         "records all have n parts, the second with a random subset of the in-range negative indexes rewritten to "
+         "n+1-k; each run compared with the model, the pair compared on the implementation; non-trivial = the "
+         "rewritten request succeeds",
+    theorems=["C09_range_unchanged", "C09_unpack_unchanged", "C09_complement_unchanged", "C09_byte_mode",
+              "C09_field_mode_general", "C09_field_mode_fast", "C09_minus_one_is_last", "C09_minus_n_is_first"],
+    assumptions=["n < 2^31", "path switching caused by the rewriting (early stop, forward-only line reader) is "
+                 "covered by the pair oracle and by C02/C05, not by C09's theorems alone"],
+)
+
+PROPS["C10"] = dict(
+    gen=lambda rng, n, tier: F.c10(rng, n),
+    budget=(3000, 30000),
+    absolute=False,
+    in_domain=always,
+    nontrivial=lambda c, m: c.tags.get("role") == "AB" and len(m[1]) > 0,
+    oracle=oracle_c10,
+    rule="triples (A, B, A||B), A ending with the EOL, records of different field counts, empty records, failing "
+         "records, on the general path (-g/-p/-r/-m, multi-byte delimiters), the fast lane, -c, --json, -e and -M; "
+         "non-trivial = the concatenated run delivers output",
+    theorems=["C10_general_path", "C10_fast_path", "C10_failure_is_preserved", "C10_failure_is_preserved_fast"],
+    assumptions=["the model cuts each record with a function of that record alone (scratch buffers are not "
+                 "modelled); that the code's reused buffers do not leak between records is what the "
+                 "correspondence check and the triple oracle test", "-M: covered by the correspondence and the oracle; "
+                 "its compositional theorem is part of C04's development"],
+)
+
+PROPS["C13"] = dict(
+    gen=lambda rng, n, tier: F.c13(rng, n),
+    budget=(4000, 40000),
+    absolute=True,
+    in_domain=always,
+    nontrivial=lambda c, m: True,
+    rule="every mode and path (general, fast, --json, -c, -b, -l forward/buffered, -M incl. segmentations through "
+         "the library) with bounds overshooting in either direction on either side, with own/generic/both/no "
+         "fallback; every case compared with the model",
+    theorems=["C13_unresolvable_iff", "C13_byte_mode", "C13_general_path", "C13_range_expansion_keeps_unresolvable",
+              "C13_range_expansion_of_resolvable", "C13_fast_path", "C13_resolvable_ignores_fallbacks_general",
+              "C13_resolvable_ignores_fallbacks_fast", "C13_resolvable_ignores_fallbacks_bytes",
+              "C13_lines_one_at_a_time", "C13_lines_straddling_range_fails", "C13_fixed_memory"],
+    assumptions=["-m with an unresolvable bound and mixed-sign ranges that resolve to an empty interval are outside "
+                 "the statement (Unspecified_C13)", "a closed range that straddles the end of a record under -M "
+                 "prints the fields it has, then its fallback or fails (a fixed-memory reader cannot retract)"],
+)
+
+PROPS["C15"] = dict(
+    gen=lambda rng, n, tier: F.c15(rng, (2 * n) // 3) + F.c15_varied(rng, n // 3),
+    budget=(3000, 30000),
+    absolute=True,
+    in_domain=always,
+    nontrivial=lambda c, m: c.tags.get("role") == "complement",
+    oracle=oracle_c15,
+    rule="pairs: -m with bounds resolvable on inputs whose records all have n parts (-f with -j/-r/--json, -l) "
+         "against the equivalent explicit request computed from the statement; all-covering bounds must fail; plus -m on "
+         "multi-record inputs whose records have different numbers of fields (compared with the model); "
+         "non-trivial = the -m member of a pair",
+    theorems=["C15_complement_of_a_bound", "C15_selected_parts", "C15_nothing_left_out_fails"],
+    assumptions=["n < 2^31"],
+)
+
+
+# ------------------------------------------------------------------ known-finding classes
+# A listed finding names one of these predicates; a failing case counts as listed only if it
+# is in the class AND the finding's own witness still reproduces (checked on every run).
+
+def kf_lines_blank_input(c):
+    """line mode on an input that is empty or a single EOL"""
+    eol = b"\0" if b"-z" in c.argv else b"\n"
+    return b"-l" in c.argv and c.stdin in (b"", eol)
+
+
+KF_CLASSES = {"lines_blank_input": kf_lines_blank_input}
